@@ -56,9 +56,11 @@ where
       let out_ptr = self.out.as_ptr() as *mut naMatrix<T, R1, C1, S1>;
       let mut current = *self.from.as_ptr();
       let step = *self.step.as_ptr();
-      for i in 0..(*out_ptr).len() {
+      let len = (*out_ptr).len();
+      for i in 0..len {
         (&mut (*out_ptr))[i] = current;
-        current = current + step;
+        // the term after the last one may not be representable (e.g. 251u8..2u8..=255u8)
+        if i + 1 < len { current = current + step; }
       }
     }
   }
